@@ -60,10 +60,7 @@ def classify_common(rec):
         if "syntax error" in msg and bare_offset(sql) and rec["target"] == "sql.generic" \
                 and any(s.kind == "take" and s.info.get("rng", (None, 0))[1] is None for s in rec["program"].steps):
             return "oracle-generic-offset"     # generic SQL may use OFFSET without LIMIT; SQLite cannot run it (F27 is repaired for sql.sqlite)
-    if v == "panic":
-        p = (rec.get("compile") or {}).get("panic", {})
-        if "name of this column has not been to be set" in p.get("msg", "") and "gen_expr.rs" in p.get("loc", "") and sort_key_dropped(rec["program"]):
-            return "F29-unnamed-column-panic"
+    # F29 (panic `name of this column has not been to be set`, gen_expr.rs) is FIXED (456bdcd, c83467e): a panic is never excused
     if v == "sql-err" and re.search(r"no such column: _expr_\d+", str(rec.get("sqlite"))) and re.search(r" AS _expr_\d+", sql):
         return "F24-dangling-generated-alias"
     if v == "sql-err" and rec["program"].meta.get("let_at") and re.search(r"no such column: x\d+", str(rec.get("sqlite"))) and re.search(r"p0 AS \(SELECT \*", sql):
@@ -94,6 +91,90 @@ def classify_common(rec):
         if "distinct" in kinds and "take" in kinds and re.search(r"SELECT DISTINCT [^()]* LIMIT", sql) and take_before_distinct(rec["program"]):
             return "F19-take-then-distinct"
     return None
+
+
+def directed_known(rng=None):
+    """Hand-built programs (PRQL text + reference term, evaluated like any generated program) that land in the open
+    findings the random streams seldom hit, so that every open entry is reproduced in the quick tier.
+    Returns [(finding id, Program, instance | None)]; None = the caller supplies instances (>= 4 rows)."""
+    n = P.nid
+    S = P.Step
+
+    def col(c, q=None):
+        return "ECol %s %d%%N" % ("None" if q is None else "(Some %d%%N)" % n(q), n(c))
+
+    def sel(names):
+        return S("select", "select {%s}" % ", ".join(names), "TSelect [%s]" % "; ".join("(None, %s)" % col(c) for c in names), final=True)
+    out = []
+    # F32: a group key defined as an integer literal
+    out.append(("F32-group-by-constant", P.Program([
+        S("derive", "derive {k9 = 2}", "TDerive [(Some %d%%N, ELit (VInt 2))]" % n("k9")),
+        S("group_agg", "group {k9} (aggregate {n9 = count this, m9 = max a})",
+          "TGroupAgg [%d%%N] [(Some %d%%N, ACount, ELit (VInt 1)); (Some %d%%N, AMax, %s)]" % (n("k9"), n("n9"), n("m9"), col("a")), by=["k9"]),
+        sel(["k9", "n9", "m9"])], False, ["k9", "n9", "m9"])))
+    # F25: an ungrouped aggregate whose outputs are only counted
+    out.append(("F25-dropped-aggregate", P.Program([
+        S("aggregate", "aggregate {x901 = min a}", "TAggregate [(Some %d%%N, AMin, %s)]" % (n("x901"), col("a"))),
+        S("aggregate", "aggregate {n9 = count x901}", "TAggregate [(Some %d%%N, ACount, %s)]" % (n("n9"), col("x901"))),
+        sel(["n9"])], False, ["n9"])))
+    # F35: the order of a let-bound prefix does not reach a window function behind the boundary
+    out.append(("F35-let-boundary-hides-order-from-window", P.Program([
+        S("sort", "sort {-id}", "TSort [(true, %s)]" % col("id"), keys=[(True, ("col", None, "id"))]),
+        S("win", "window rolling:3 (derive {x902 = min c})",
+          "TWinF (FRows (Some (-2)) (Some 0)) [(true, %s)] [(Some %d%%N, WAgg AMin, %s)]" % (col("id"), n("x902"), col("c")), fn="WAgg AMin", frame="rolling:3"),
+        sel(["id", "x902"])], True, ["id", "x902"], {"let_at": 1, "order": [(True, ("col", None, "id"))], "key_pos": [(0, True)]}),
+        # insertion order differs from the sort order and the rolling minimum depends on it
+        {"t": [[2, 0, 0, 3, 0], [5, 0, 0, 0, 0], [1, 0, 0, 2, 0], [4, 0, 0, 1, 0], [3, 0, 0, -1, 0]], "u": [[1, 0, 0, 0]]}))
+    # F36: a let-bound wildcard pipeline that needs a sub-query loses the name of its derived column
+    out.append(("F36-let-table-star-loses-derived-name", P.Program([
+        S("derive", "derive {x903 = (a + 1)}", "TDerive [(Some %d%%N, EBin Add (%s) (ELit (VInt 1)))]" % (n("x903"), col("a"))),
+        S("filter", "filter (g <= 2)", "TFilter (EBin Le (%s) (ELit (VInt 2)))" % col("g")),
+        S("group_win", "group {a} (sort {id} | derive {n9 = row_number this})",
+          "TGroupWin [%d%%N] [(false, %s)] [(Some %d%%N, WRowNumber, ELit (VInt 1))]" % (n("a"), col("id"), n("n9")), by=["a"], fn="WRowNumber",
+          keys=[(False, ("col", None, "id"))]),
+        sel(["x903", "n9"])], False, ["x903", "n9"], {"let_at": 2})))
+    # F39: readers of a let-bound pipeline sorted by a computed column re-inline the key's definition
+    out.append(("F39-let-sort-key-expression-reinlined", P.Program([
+        S("select", "select {id, a, x904 = (a + c)}",
+          "TSelect [(None, %s); (None, %s); (Some %d%%N, EBin Add (%s) (%s))]" % (col("id"), col("a"), n("x904"), col("a"), col("c"))),
+        S("sort", "sort {-x904, id}", "TSort [(true, %s); (false, %s)]" % (col("x904"), col("id")),
+          keys=[(True, ("col", None, "x904")), (False, ("col", None, "id"))]),
+        S("group_take", "group {a} (sort {id} | take 2)", "TGroupTake [%d%%N] [(false, %s)] None (Some (2))" % (n("a"), col("id")), by=["a"],
+          keys=[(False, ("col", None, "id"))]),
+        sel(["id"])], False, ["id"], {"let_at": 2})))
+    # F24: a generated alias (`id AS _expr_0` for the alias x905 = id) is referenced by the final ORDER BY two sub-queries later
+    out.append(("F24-dangling-generated-alias", P.Program([
+        S("select", "select {id, b, c, x905 = id}",
+          "TSelect [(None, %s); (None, %s); (None, %s); (Some %d%%N, %s)]" % (col("id"), col("b"), col("c"), n("x905"), col("id"))),
+        S("group_win", "group {b} (sort {id} | derive {x906 = lag 1 x905})",
+          "TGroupWin [%d%%N] [(false, %s)] [(Some %d%%N, WLag 1, %s)]" % (n("b"), col("id"), n("x906"), col("x905")), by=["b"], fn="WLag 1",
+          keys=[(False, ("col", None, "id"))]),
+        S("sort", "sort {id}", "TSort [(false, %s)]" % col("id"), keys=[(False, ("col", None, "id"))]),
+        S("win", "derive {x907 = lag 1 x906}", "TWin [(false, %s)] [(Some %d%%N, WLag 1, %s)]" % (col("id"), n("x907"), col("x906")), fn="WLag 1"),
+        S("filter", "filter (c < 3)", "TFilter (EBin Lt (%s) (ELit (VInt 3)))" % col("c")),
+        sel(["b", "x906", "x907"])], True, ["b", "x906", "x907"], {"order": [(False, ("col", None, "id"))], "key_pos": None})))
+    # F44: inside a group body the sort survives an aggregate; what follows the aggregate drags the sort column into the
+    # aggregating SELECT (a bare column next to GROUP BY: SQLite picks an arbitrary row, stricter engines reject the query)
+    out.append(("F44-grouped-aggregate-keeps-sort", P.Program([
+        S("group_body", "group {a} (sort {b, id} | aggregate {x908 = sum c} | take 1)",
+          "TGroupAgg [%d%%N] [(Some %d%%N, ASum, %s)]" % (n("a"), n("x908"), col("c")), by=["a"],
+          flat="PGroup true [PSort [false; false]; PAgg; PTake]"),
+        sel(["a", "x908"])], False, ["a", "x908"], {"agg_in_group_not_last": True})))
+    # C07-N1: a sorted let-bound relation that keeps its sort column, then joined
+    s_, u_ = n("s9"), n("u")
+
+    def n1_model(inst):
+        base = P.coq_rel("t", inst["t"], "(Some %d%%N)" % n("t"), P.inst_cols(inst, "t"))
+        ut = P.coq_rel("u", inst["u"], "None", P.inst_cols(inst, "u"))
+        return ("(let p := run %s [TSort [(true, %s)]; TSelect [(None, %s); (None, %s)]] in "
+                "let r := run (map (requalify %d%%N) p) [TJoin Inner %d%%N %s %s (EBin Eq (%s) (%s)); TSelect [(None, %s); (Some %d%%N, %s)]] in (show r, names r))"
+                % (base, col("id"), col("id"), col("b"), s_, u_, P.coq_names(P.inst_cols(inst, "u")), ut, col("b", "s9"), col("id", "u"),
+                   col("id", "s9"), n("k9"), col("d", "u")))
+    out.append(("C07-N1-order-by-inner-relation", P.RawProgram(
+        ["sort", "select", "join", "select"],
+        "let s9 = (\nfrom t\nsort {-id}\nselect {id, b}\n)\nfrom s9\njoin u (s9.b == u.id)\nselect {s9.id, k9 = u.d}",
+        n1_model, True, ["id", "k9"], {"let_at": 2, "key_pos": [(0, True)]})))
+    return [(e[0], e[1], e[2] if len(e) > 2 else None) for e in out]
 
 
 def append_pruned(sql):
